@@ -5,14 +5,19 @@ twisted.application._client_service) runs against a simulator endpoint whose
 connect() returns Deferreds that the tape later fires with a protocol bound to
 a recording transport, fails, or leaves hanging (cancellation is observed), on
 sim.clock (through a recording facade, so every timer the service creates is a
-retry timer), with a deterministic retryPolicy and a scripted
+retry timer), with a deterministic retryPolicy (a table drawn per run: delays
+of exactly zero as int or float, non-monotonic and repeated entries; the
+argument it is asked about is recorded) and a scripted
 prepareConnection hook (absent, returns, raises, returns a Deferred fired later
 with success/failure; on rejection the hook may close the transport itself).
 
 Histories: startService / stopService (also duplicated and before start),
 whenConnected(failAfterFailures=None|1|2|3), attempt succeeds / fails / hangs,
 established connection drops, close requested by the service is delivered,
-clock advances exactly to / short of / past the retry.
+clock advances exactly to / short of / past the retry; with the
+`callback_restart` knob the application's callbacks on whenConnected and
+stopService Deferreds call startService() (restart when cancelled / once
+stopped), i.e. also while stopService() or connectionLost() is on the stack.
 
 Oracle after every step (written from the statement and the public docs):
 open connections + attempts in progress <= 1; every retry timer's delay ==
@@ -35,6 +40,7 @@ import os
 from automat import NoTransition
 from zope.interface import implementer
 
+from twisted.application import _client_service
 from twisted.application.internet import ClientService
 from twisted.internet import defer, error
 from twisted.internet.address import IPv4Address
@@ -60,9 +66,13 @@ COMPONENTS = {"real": ["twisted.application.internet.ClientService", "twisted.ap
                        "retryPolicy (fixed table)", "prepareConnection hook (scripted)"]}
 RULE = ("run = one ClientService (prepareConnection mode none/sync/deferred/mixed drawn), 8..60 tape-chosen operations: startService, stopService, "
         "whenConnected(None|1|2|3), succeed/fail the pending attempt, fire/fail the pending prepareConnection Deferred, drop the open connection, "
-        "deliver a requested close, advance the clock to/short of/past the retry; "
+        "deliver a requested close, advance the clock to/short of/past the retry; in `extended` runs the retry policy table is drawn (zero, int/float, "
+        "non-monotonic, repeated delays) and, with `callback_restart`, callbacks of whenConnected/stopService Deferreds call startService(); "
         "non-trivial = at least 2 connection attempts AND (a retry timer fired, an established connection dropped, or stopService found a connection or attempt)")
-ASSUMPTIONS = ["operations are issued from outside Deferred callbacks, except in runs with the `reentrant` knob, where a whenConnected callback calls stopService()/whenConnected()",
+ASSUMPTIONS = ["operations are issued from outside Deferred callbacks, except startService() in runs with the `callback_restart` knob (a None-returning input, which automat accepts "
+               "while another input is being processed) and, in runs with the disabled `reentrant` knob, stopService()/whenConnected() from a whenConnected callback",
+               "a whenConnected Deferred cancelled by a stop may observe the service already started again by a callback that ran earlier in the same cascade",
+               "any non-negative retry delay is legal, including exactly 0 (the retry then happens as soon as the clock runs its due calls)",
                "a dropped established connection counts as the first consecutive failure for the retry policy (policy(1)), as documented for retryPolicy's argument",
                "whenConnected Deferreds registered on a service that was never started are not required to fail when stopService is called on it",
                "whenConnected Deferreds registered while a stop is in progress and followed by startService before the stop completes wait for the next connection",
@@ -75,10 +85,6 @@ KNOWN = ["C58:event-rejected:_clientDisconnected@Connecting", "C58:event-rejecte
          "C58:reentrant-call-rejected:stopService", "C58:reentrant-call-rejected:whenConnected"]
 
 DELAYS = [0.5, 1.0, 2.0, 4.0]
-
-
-def policy(n):
-    return DELAYS[min(max(n, 1), len(DELAYS)) - 1]
 
 
 class App(Protocol):
@@ -181,16 +187,50 @@ class Stop:
 
 
 def run(sim):
+    # The only randomness in the code under test is the jitter of the stock backoff policy.  Every run passes its own
+    # retryPolicy, so it should never be consulted; it is rebound to a fixed jitter all the same, so that a run in
+    # which the service does fall back on it is still reproducible.
+    saved = _client_service._defaultPolicy
+    _client_service._defaultPolicy = _client_service.backoffPolicy(jitter=lambda: 0.5)
+    try:
+        _run(sim)
+    finally:
+        _client_service._defaultPolicy = saved
+
+
+def _run(sim):
     prepare_mode = sim.draw_choice(["none", "sync", "deferred", "mixed"], "prepare_mode")
     nops = sim.draw_int(8, 60 * sim.depth, "nops")
     avoid = sim.draw_bool(0.75, "avoid_known") or bool(os.environ.get("VERIF_C58_AVOID_KNOWN"))
     close_on_reject = sim.draw_bool(0.5, "close_on_reject")
-    # Re-entrant stopService()/whenConnected() from inside a whenConnected callback raise RuntimeError
-    # (automat refuses re-entrant inputs that return a value).  The property statement does not cover
-    # re-entrancy, so no verdict is given: the knob is drawn (tape layout unchanged) but disabled.
-    reentrant = sim.draw_bool(0.3, "reentrant") and not avoid and REENTRANT_ENABLED
-    sim.config = {"prepare_mode": prepare_mode, "nops": nops, "avoid_known": avoid, "close_on_reject": close_on_reject, "reentrant": reentrant}
+    # Fifth draw: gate of the later-added families (0 = none of them, so that older tapes keep their meaning).
+    extended = sim.draw_bool(0.65, "extended")
+    delays = list(DELAYS)
+    callback_restart = False
+    reentrant = False
+    if extended:
+        # retry policy table of this run: any non-negative delay is legal, in particular exactly zero (int or float),
+        # tables that are not monotonic, and tables with repeated entries
+        delays = [sim.draw_choice([d, 0, 0.0, 0.25, 3], "delay%d" % i) for i, d in enumerate(DELAYS)]
+        # the application reacts to the result of a whenConnected / stopService Deferred by calling startService()
+        # from inside the callback ("restart when cancelled", "restart once stopped").  startService() returns None,
+        # so automat accepts it while another input is being processed.
+        callback_restart = sim.draw_bool(0.5, "callback_restart")
+        # Re-entrant stopService()/whenConnected() from inside a whenConnected callback raise RuntimeError
+        # (automat refuses re-entrant inputs that return a value).  The property statement does not cover
+        # that, so no verdict is given: the knob is drawn but disabled.
+        reentrant = sim.draw_bool(0.3, "reentrant") and not avoid and REENTRANT_ENABLED
+    sim.config = {"prepare_mode": prepare_mode, "nops": nops, "avoid_known": avoid, "close_on_reject": close_on_reject, "reentrant": reentrant,
+                  "delays": delays, "callback_restart": callback_restart}
     clk = sim.clock
+    asked = []
+
+    def policy(n):
+        asked.append(n)
+        return delays[min(max(n, 1), len(delays)) - 1]
+
+    def expected_delay(n):
+        return delays[min(max(n, 1), len(delays)) - 1]
 
     m = {"running": False, "ever_started": False, "k": 0, "retry_fired": 0, "drops": 0, "busy_stops": 0}
     conns, attempts, waiters, stops, timers = [], [], [], [], []
@@ -250,8 +290,13 @@ def run(sim):
         m["k"] += 1
         sim.event("retry-timer", delay)
         stale_guard("a retry was scheduled")
-        sim.check("retry-delay", delay == policy(m["k"]), "policy",
-                  "retry timer delay %s, policy(%d consecutive failures) = %s" % (delay, m["k"], policy(m["k"])))
+        want = expected_delay(m["k"])
+        sim.check("retry-delay", delay == want, "policy",
+                  "retry timer delay %r, policy(%d consecutive failures) = %r" % (delay, m["k"], want))
+        sim.check("retry-delay", bool(asked) and asked[-1] == m["k"], "policy-argument",
+                  lambda: "retry policy was last asked about %r consecutive failures, the history has %d" % (asked[-1] if asked else None, m["k"]))
+        if want == 0:
+            sim.probe("zero_delay_retry")
         other = [t for t in timers if t.active()]
         sim.check("one-retry-timer", not other, "timer", "a second retry timer was scheduled while one is pending")
         sim.check("retry-while-stopped", m["running"], "timer", "retry timer scheduled while the service is stopped")
@@ -328,7 +373,8 @@ def run(sim):
             stale_guard("a whenConnected Deferred fired")
             if isinstance(res, Failure):
                 if res.check(defer.CancelledError):
-                    sim.check("waiter-result", not m["running"], "cancelled-while-running", "whenConnected #%d failed with CancelledError while the service is running" % w.idx)
+                    # (a callback that ran earlier in the same cascade may already have started the service again)
+                    sim.check("waiter-result", not m["running"] or m.get("restarted_in_callback"), "cancelled-while-running", "whenConnected #%d failed with CancelledError while the service is running" % w.idx)
                 else:
                     sim.check("waiter-result", w.remaining is not None and w.remaining <= 0, "early-failure",
                               "whenConnected #%d (failAfterFailures left %r) failed with %s" % (w.idx, w.remaining, res.type.__name__))
@@ -346,8 +392,35 @@ def run(sim):
                         op_when()
                 finally:
                     m["in_callback"] = False
+            react_with_start("whenConnected", 0.5 if isinstance(res, Failure) else 0.2)
             return None
         d.addBoth(rec)
+
+    def react_with_start(source, p):
+        """The application's callback on a Deferred of the service calls startService()."""
+        if not callback_restart or m.get("in_callback"):
+            return
+        if any(c.open and not c.established for c in conns):
+            # a connection that prepareConnection rejected or has not accepted yet is still open: precondition of the
+            # known prepareConnection findings (only in runs without avoid_known); starting now would only re-report them
+            return
+        if not sim.draw_bool(p, "restart_in_callback"):
+            return
+        sim.fault("start_from_%s_callback" % source)
+        if m.get("inside"):
+            sim.probe("start_while_%s_on_stack" % m["inside"])
+        if not m["running"]:
+            m["restarted_in_callback"] = True
+            if m["ever_started"] and not live_things():
+                # the stop is complete: whatever was waiting is resolved by it, not by the service started now
+                for w in waiters:
+                    if not w.results:
+                        w.must = w.must or "stopped"
+        m["in_callback"] = True
+        try:
+            op_start()
+        finally:
+            m["in_callback"] = False
 
     def watch_stop(s, d):
         def rec(res):
@@ -357,6 +430,8 @@ def run(sim):
             still = [x for x in s.alive if x.live()]
             sim.check("stop-waits-for-close", not still, "+".join(sorted(x.status() for x in still)),
                       lambda: "stopService Deferred #%d fired while %s still open" % (s.idx, ", ".join("%s#%d" % (x.status(), x.idx) for x in still)))
+            if len(s.results) == 1:
+                react_with_start("stopService", 0.4)
             return None
         d.addBoth(rec)
 
@@ -425,7 +500,11 @@ def run(sim):
         m["await_timer"] = None
         s = Stop(len(stops), lv)
         stops.append(s)
-        d = guarded("stopService", svc.stopService)
+        outer, m["inside"] = m.get("inside"), "stopService"
+        try:
+            d = guarded("stopService", svc.stopService)
+        finally:
+            m["inside"] = outer
         if d is not None:
             watch_stop(s, d)
 
@@ -495,10 +574,12 @@ def run(sim):
         reason = Failure(error.ConnectionDone() if conn.closing else error.ConnectionLost())
         cur = current_established()
         m["stale_loss"] = (not conn.established) and cur is not None and cur is not conn
+        m["inside"] = "connectionLost"
         try:
             guarded("connectionLost", conn.proxy.connectionLost, reason)
         finally:
             m["stale_loss"] = False
+            m["inside"] = None
 
     def op_clock():
         pend = [dc for dc in timers if dc.active()]
@@ -523,6 +604,7 @@ def run(sim):
 
     for _ in range(nops):
         sim.step(300 * sim.depth)
+        m["restarted_in_callback"] = False
         pend_a = [a for a in attempts if a.live()]
         pend_p = [c for c in conns if c.pd is not None]
         closing = [c for c in conns if c.open and c.closing]
@@ -570,4 +652,6 @@ MUTANTS = [
     "_client_service.py Connected._clientDisconnected -> Connecting (reconnect without waiting): first SURVIVED, CAUGHT retry-waits:no-delay after adding the 'a failure/drop must be followed by a fired retry timer before the next connect()' clause",
     '_client_service.py restartDone without finishStopping(): CAUGHT stop-fires',
     '_client_service.py connectingStop without attempt.cancel(): CAUGHT stop-fires / single-connection',
+    "round 4 (drawn policy table, startService from callbacks): ClientService.stopService clears `running` after machine.stop(): CAUGHT makes-progress:idle; "
+    "waitForRetry 'if not delay: delay = _defaultPolicy(...)': CAUGHT retry-delay:policy",
 ]
